@@ -62,6 +62,46 @@ def table_removals(tree):
     return out
 
 
+def check_linker_reads_only(model, col, rule):
+    """Linking does not change the modules it is given: a module object can be linked into several programs (and stays the
+    compiled module its file holds), so the linker may read a module's tables but must not call a state-changing method of
+    an IR object or write one of its attributes (e.g. binding call targets *on the instructions*: the last Link() wins)."""
+    from ..effects import direct_mutations, rebinds
+    from ..state import root_name
+
+    skip = {"Linker", "Program", "ModuleLoader", "FilesystemModuleLoader", "MemoryModuleLoader", "InstructionPrinter"}
+    writers = {}
+    for ci in model.classes.values():
+        if ci.file != IR or ci.name in skip or "." in ci.qualname:
+            continue
+        for name, m in ci.methods.items():
+            if name.startswith("__") and name.endswith("__"):
+                continue
+            if direct_mutations(ci, m) or rebinds(ci, m):
+                writers.setdefault(name, ci.name)
+    if "AddInstruction" not in writers and "SetReference" not in writers:
+        raise AnalysisError("R16.3: the IR writer-method table is empty (expected e.g. AddInstruction / SetReference)")
+    lk = model.cls(IR, "Linker")
+    n = 0
+    for m in lk.methods.values():
+        selfn = m.args.args[0].arg if m.args.args else "self"
+        for c in ast.walk(m):
+            if isinstance(c, ast.Call) and isinstance(c.func, ast.Attribute):
+                n += 1
+                recv = c.func.value
+                if isinstance(recv, ast.Name) and recv.id == selfn:
+                    continue
+                if c.func.attr in writers and c.func.attr not in lk.methods:
+                    col.bad(rule, f"{IR}::Linker.{m.name} changes a linked module", f"`{' '.join(unparse(c).split())[:80]}` calls {writers[c.func.attr]}.{c.func.attr}, which writes the object's state: "
+                            "the module's IR is shared by every program it is linked into (and is what the module file holds), so a later Link() changes what an earlier program runs", IR, c)
+            elif isinstance(c, (ast.Assign, ast.AugAssign)):
+                for t in (c.targets if isinstance(c, ast.Assign) else [c.target]):
+                    if isinstance(t, ast.Attribute) and root_name(t) != selfn:
+                        col.bad(rule, f"{IR}::Linker.{m.name} changes a linked module", f"`{' '.join(unparse(c).split())[:80]}` writes an attribute of an object that is not the linker's own", IR, c)
+    col.floor(rule, "method calls in the linker", n, 5)
+    col.ok(rule, f"{IR}::Linker only reads the modules it links", f"{n} calls in Linker; none is one of the {len(writers)} state-changing methods of the IR classes")
+
+
 def check_tables_keep_entries(model, col, rule):
     """A lowered module keeps every function, global and import it has: importers, the linker and the module file all read
     these tables, so an entry taken out after lowering (e.g. a function that looks unused *within this module*) is missing
@@ -176,8 +216,14 @@ def run(model, col, tier):
         col.ok("R16.2", "no container is mutated while it is iterated", f"{loops} loops over self containers, none mutates its own container (transitively)")
     # ---------------- R16.3 -------------------------------------------------------
     link = lk.own_method("Link")
+    if link is not None:
+        # private helpers of the work-list loop (`__TakePendingImports`, `__LoadImport`) are read in place
+        from ..sem import expand_helpers as _xh163
+
+        link = _xh163(model, lk, link, skip=("v_", "AddModule"))
     loads = [c for c in ast.walk(link) if isinstance(c, ast.Call) and last_attr(c) == "Load"]
     col.floor("R16.3", "loader.Load call sites in Link", len(loads), 1)
+    check_linker_reads_only(model, col, "R16.3")
     for c in loads:
         namev = c.args[0]
         if not isinstance(namev, ast.Name):
@@ -452,7 +498,7 @@ def run(model, col, tier):
     from ..report import Collector as _C168
 
     sub168 = _C168("C10")
-    _c10.run(model, sub168, "quick")
+    _c10.run(model, sub168, "quick", share=False)
     n168 = 0
     for ob in sub168.obligations:
         if ob.rule == "R10.3" and ("v_Module" in ob.construct or "Linker." in ob.construct):
